@@ -23,6 +23,8 @@ class _Collector(HTMLParser):
         self.links = []     # (tag, attr, value, in_svg, text just before the tag)
         self.ids = set()
         self._svg = 0
+        self._gtable = 0        # inside <table class="graph">: a graph drawn as an HTML table
+        self._tables = []
         self._text = ""
         self._starts = [0]
 
@@ -41,13 +43,18 @@ class _Collector(HTMLParser):
     def handle_starttag(self, tag, attrs):
         if tag == "svg":
             self._svg += 1
+        if tag == "table":
+            isg = any(k == "class" and v and "graph" in v.split() for k, v in attrs)
+            self._tables.append(isg)
+            self._gtable += isg
         for k, v in attrs:
             if v is None:
                 continue
             if k in ("id",) or (k == "name" and tag == "a"):
                 self.ids.add(v)
             if k in URL_ATTRS:
-                self.links.append((tag, k, v, self._svg > 0, self.before()))
+                self.links.append((tag, k, v, "svg" if self._svg > 0 else "graph-table" if self._gtable > 0 else "",
+                                   self.before()))
 
     def handle_startendtag(self, tag, attrs):
         self.handle_starttag(tag, attrs)
@@ -57,6 +64,8 @@ class _Collector(HTMLParser):
     def handle_endtag(self, tag):
         if tag == "svg" and self._svg:
             self._svg -= 1
+        if tag == "table" and self._tables:
+            self._gtable -= self._tables.pop()
 
 
 def parse_html(path):
@@ -100,8 +109,8 @@ def href_pattern(url):
 def walk(doc_root, search=True):
     """-> (problems, stats)"""
     root = pathlib.Path(doc_root).resolve()
-    problems, stats = [], {"pages": 0, "links": 0, "internal": 0, "fragments": 0, "svg": 0, "search_urls": 0,
-                           "external": 0, "by_class": {}}
+    problems, stats = [], {"pages": 0, "links": 0, "internal": 0, "fragments": 0, "svg": 0, "graph_table": 0,
+                           "search_urls": 0, "external": 0, "by_class": {}}
     cache = {}
 
     def parsed(p):
@@ -132,8 +141,10 @@ def walk(doc_root, search=True):
             return
         stats["internal"] += 1
         stats["by_class"][page_class(src_rel)] = stats["by_class"].get(page_class(src_rel), 0) + 1
-        if in_svg:
+        if in_svg == "svg":
             stats["svg"] += 1
+        if in_svg == "graph-table":
+            stats["graph_table"] += 1
         if u.startswith("/") or str(root) in u:
             problems.append(dict(page=src_rel, attr=attr, url=url, problem="absolute", kind=kind))
             return
@@ -170,7 +181,7 @@ def walk(doc_root, search=True):
         stats["pages"] += 1
         c = parsed(p)
         for tag, attr, val, in_svg, before in c.links:
-            judge(rel, p.parent, f"{tag}@{attr}", val, in_svg, "svg" if in_svg else "html", before)
+            judge(rel, p.parent, f"{tag}@{attr}", val, in_svg, in_svg or "html", before)
     db = root / "search" / "search_database.json"
     if db.is_file():
         txt = db.read_text(encoding="utf8")
